@@ -1406,13 +1406,34 @@ def ev_observe(w, ev):
     return "ok"
 
 
+def ev_clobber_source(w, ev):
+    """The file the deck was opened from is overwritten / truncated / deleted behind the library's back: nothing may be
+    read lazily, so the live presentation and later saves are unaffected."""
+    deck = w.deck(ev.get("deck", 0))
+    if deck is None or not deck.alive or not getattr(deck, "src_path", None):
+        return "skip:no kept source"
+    how = ev.get("how", "garbage")
+    if how == "delete":
+        if os.path.exists(deck.src_path):
+            os.unlink(deck.src_path)
+        deck.src_path = None
+    elif how == "truncate":
+        with open(deck.src_path, "r+b") as f:
+            f.truncate(100)
+    else:
+        with open(deck.src_path, "wb") as f:
+            f.write(b"not a package any more")
+    w.faults.hit("source_file_clobbered_" + how)
+    return "ok"
+
+
 def ev_clock_jump(w, ev):
     w.clock.jump(ev.get("by", 0))
     return "ok"
 
 
 SCHED = {"checkpoint": ev_checkpoint, "restart": ev_restart, "reopen": ev_reopen, "fork": ev_fork,
-         "observe": ev_observe, "clock_jump": ev_clock_jump}
+         "observe": ev_observe, "clock_jump": ev_clock_jump, "clobber_source": ev_clobber_source}
 
 
 def _innermost_in_harness(tb) -> bool:
@@ -1476,9 +1497,9 @@ def gen_op_event(r: random.Random, name: str, deck: int = 0) -> dict:
 
 
 def gen_sink(r: random.Random, fault_rate=0.0, nwrites=300):
-    sink = r.choice(["seekable", "seekable", "unseekable", "path"])
+    sink = r.choice(["seekable", "seekable", "unseekable", "path", "samepath"])
     d = {"sink": sink}
-    if sink != "path" and r.random() < fault_rate:
+    if sink not in ("path", "samepath") and r.random() < fault_rate:
         k = r.random()
         at = r.choice([1, 2, 3, r.randint(1, nwrites), r.randint(1, 60)])
         if k < 0.35:
